@@ -23,6 +23,9 @@ THEOREMS = [
     # honest calls on caller-provided result buffers, histories (Model/KosBuf.lean)
     "Mpc.C15_kos_complete_any_buffer",
     "Mpc.C15_kos_history_never_aborts",
+    # mixed histories: malicious-mode, semi-honest and packed-bit calls on one pair (Model/KosMix.lean + C06's Model/IknpBuf.lean)
+    "Mpc.C15_kos_mixed_history_never_aborts",
+    "Mpc.C15_kos_mixed_needs_all_columns",
     "Mpc.C15_kos_accept_iff",
     "Mpc.C15_kos_unselected_harmless",
     "Mpc.C15_kos_single_row_sound",
@@ -165,6 +168,26 @@ def count_ops(ctx, ops):
     return nf
 
 
+def mixed_variant_reach(ctx, ops):
+    """Do the generated mixed histories tell the code from a sender whose packed-bit call advances only the stream of
+    column 0 (driver op `mhist0`, the situation of C15_kos_mixed_needs_all_columns)?  Every history that has a
+    malicious-mode call after a packed-bit call must abort on the variant model."""
+    ops2 = ops + ".col0"
+    want = 0
+    with open(ops, errors="replace") as fi, open(ops2, "w") as fo:
+        for line in fi:
+            fo.write(line.replace("c15 mhist ", "c15 mhist0 ", 1))
+            kinds = "".join(x.split(":")[0] for x in line.split()[-1].split(";"))
+            want += 1 if re.search(r"B[^M]*M", kinds) else 0
+    outp, rc = ctx.run_drv(ops2)
+    got = sum(1 for line in open(outp, errors="replace") if line.strip().endswith("A"))
+    ctx.coverage["mixed_histories_with_a_malicious_call_after_packed_bits"] = \
+        ctx.coverage.get("mixed_histories_with_a_malicious_call_after_packed_bits", 0) + want
+    ctx.oblige("the variant model in which the sender's packed-bit call advances only column 0 aborts in every generated "
+               "mixed history that has a malicious-mode call after a packed-bit call (and only there)",
+               rc == 0 and want > 0 and got == want, "histories with such a call: %d, variant aborts: %d" % (want, got))
+
+
 def run(ctx):
     ctx.prove("MpcVerif.Props.C15", THEOREMS)
     ctx.prove("MpcVerif.Props.C15Count", THEOREMS_COUNT)
@@ -199,8 +222,16 @@ def run(ctx):
             ctx.correspond("histories of honest malicious-mode calls with named result buffers: response labels and "
                            "outputs of every call = Lean model Kos.runKCall (seed %d)" % s, ops, out)
             count_ops(ctx, ops)
+        # MIXED histories: malicious-mode calls interleaved with semi-honest label calls and packed-bit calls (mhist.go)
+        for s in seeds:
+            ops, out, meta = ctx.run_hx("mhist", 24 if quick else 96, seed=s, timeout=2400)
+            ctx.absorb_meta(meta)
+            ctx.correspond("mixed histories (malicious-mode / semi-honest / packed-bit calls in every order on one pair): "
+                           "responses and outputs of every call = Lean model Kos.sessionM (seed %d)" % s, ops, out)
+            count_ops(ctx, ops)
+            mixed_variant_reach(ctx, ops)
         c = ctx.coverage.get("counters", {})
-        ctx.evaluations += c.get("faults_total", 0) + c.get("faults_live", 0) + c.get("hist_calls", 0)
+        ctx.evaluations += c.get("faults_total", 0) + c.get("faults_live", 0) + c.get("hist_calls", 0) + c.get("mhist_calls", 0)
         need = ["honest_sessions_ok", "n_single_chunk", "n_multi_chunk", "n_gt_1024_rows", "n_with_padding_rows",
                 "faults_selected_column_A", "faults_unselected_or_padding_ok", "faults_live",
                 "outcome_padding_ok", "outcome_double_A", "outcome_multi_A", "outcome_bytemask_A",
@@ -215,7 +246,14 @@ def run(ctx):
                 ["outcome_all-payload_A", "outcome_all-payload_ok", "outcome_all-check_A", "outcome_all-check_ok"])
         need += ["hist_buf_" + k for k in ("fresh", "kept", "kept_subslice", "ones", "bytefill", "random")] + \
                 ["hist_buf_nonzero_before_call", "hist_same_slice_as_previous_call", "hist_n_multi_chunk", "hist_n_gt_1024", "hist_n_single_chunk"]
+        need += ["mhist_planned_%s_then_%s" % (a, b) for a in "MLB" for b in "MLB"] + \
+                ["mhist_planned_M", "mhist_planned_L", "mhist_planned_B", "mhist_delta_random", "mhist_delta_ones", "mhist_delta_zero",
+                 "mhist_delta_bit0"]
         missing = [k for k in need if not c.get(k)]
+        ctx.oblige("every honest MIXED history on one pair (malicious-mode calls after and between semi-honest label calls and "
+                   "packed-bit calls) completed: no call of any kind aborted",
+                   c.get("mhist_cases", 0) > 0 and c.get("mhist_cases_ok", 0) == c.get("mhist_cases", -1),
+                   "histories=%s completed=%s" % (c.get("mhist_cases"), c.get("mhist_cases_ok")))
         ctx.oblige("every honest history of malicious-mode calls on one pair completed, whatever the result slices held "
                    "(no abort in any call)", c.get("hist_cases", 0) > 0 and c.get("hist_cases_ok", 0) == c.get("hist_cases", -1),
                    "histories=%s completed=%s" % (c.get("hist_cases"), c.get("hist_cases_ok")))
@@ -251,11 +289,23 @@ def run(ctx):
         if (ctx.broken or drifted) and not [f for f in ctx.fails if not ctx.is_known(f)]:
             # widened search for a concrete failing input (oracle only)
             for s in range(ctx.seed + 7000, ctx.seed + 7003):
+                ops, out, meta = ctx.run_hx("mhist", 120, seed=s, tag="-widen", timeout=2400)
+                ctx.absorb_meta(meta, prefix="widen_")
+                if [f for f in ctx.fails if not ctx.is_known(f)]:
+                    break
                 ops, out, meta = ctx.run_hx("sess", 3000, seed=s, tag="-widen", timeout=2400)
                 ctx.absorb_meta(meta, prefix="widen_")
                 if [f for f in ctx.fails if not ctx.is_known(f)]:
                     break
     ctx.coverage["rule"] = (
+        "mhist: 24 (96) MIXED histories of 2-7 calls on ONE pair: malicious-mode label calls (M), semi-honest label calls (L) and "
+        "packed-bit calls SendBits/ReceiveBits (B) from 12 planned kind patterns (every ordered pair of kinds occurs as "
+        "consecutive calls; every pattern ends with an M call) plus a random suffix; label sizes 1..1100 around "
+        "8/64/128/512/1024, packed-bit sizes with partial words, byte rows that are / are not a multiple of 8 and several "
+        "chunks; Delta random / ones / zero / bit 0 / bit 127; result slices as in hist; the op line carries the history and "
+        "the model (Kos.sessionM: Kos.runKCall + C06's Iknp.runCallB, stream positions threaded through all kinds) must give "
+        "the same responses and outputs; oracle: no call aborts, label calls correlated, packed bits r_j = s_j xor "
+        "(Delta.Bit(0) and c_j). "
         "hist: 24 (120) histories of 2-4 honest malicious-mode calls on ONE pair, n in 1..1100 around 8/64/128/512/1024, "
         "every call with a named result slice: fresh, or a window [off, off+n) of the receiver's long-lived array kept as "
         "the earlier calls left it (incl. the very slice of the previous call), or overwritten first with ones / another "
@@ -294,7 +344,10 @@ def run(ctx):
     return ctx.finish(
         "Theorems (Props/C15.lean): mul128 coefficients = polynomial product over GF(2) (hence bilinear, no zero "
         "divisors), the CLMUL assembly's Karatsuba algorithm = mul128Generic; honest malicious-mode calls never abort "
-        "for every n/choices/streams/challenge generator (C15_kos_complete); with error masks E1/E2 on the transmitted "
+        "for every n/choices/streams/challenge generator (C15_kos_complete), in every history of such calls "
+        "(C15_kos_history_never_aborts) and in every MIXED history in which they are interleaved with semi-honest label calls "
+        "and packed-bit calls sharing the per-column streams (C15_kos_mixed_history_never_aborts; in step in ALL 128 columns is "
+        "what carries it: C15_kos_mixed_needs_all_columns); with error masks E1/E2 on the transmitted "
         "chunks of payload and check batch and an altered response the sender accepts IFF sum_r chi_r*(E_r&Delta) xor "
         "(x xor x')*Delta xor (t xor t') = 0 and then outputs the honest labels xor E_r&Delta (C15_kos_accept_iff); "
         "alterations confined to unselected columns are harmless; all effective alterations in one row with chi_r != 0 "
